@@ -89,6 +89,15 @@ def build_packs(scs, root="topork", pack=PACK) -> list[tuple[Path, list]]:
         for sc in chunk:
             files.update(scenario_files(sc, f"s{sc['id']:04d}"))
         rootname = f"{root}{c // pack:03d}"
+        # a plain module that sorts before every other one imports the private declarations that nothing re-exports (an import in a
+        # module is no re-export), and a sub-package that consists of its package file only (the type checker never loads it)
+        lines = []
+        for sc in chunk:
+            if sc["reexp"]["form"] == "none" and sc["dname"] in ("_privdecl", "__mangled", "_trail__") and sc["stem"] == "pubmod" and sc["place"] != "privsub":
+                n = names(sc)
+                lines.append(f"from {rootname}.s{sc['id']:04d}.{'.'.join([*PLACE[sc['place']], n['stem']])} import {n['decl']}")
+        files["aaa_first.py"] = "\n".join(lines) + "\n\n\ndef first_fn() -> int:\n    ...\n"
+        files["zdata/__init__.py"] = ""
         out.append((write_pkg(files, rootname), chunk))
     return out
 
